@@ -256,22 +256,24 @@ def lift_tables(repo):
     return base, derived, other, prefixes
 
 
-def run(chk, repo, tier):
+def unit_tables(chk, repo, R1='R10.1', R2='R10.2'):
+    """Definitions and prefixes against the SI reference; returns the
+    checker's database built from them."""
     base, derived, other, prefixes = lift_tables(repo)
-    chk.need('R10.1', len(base), 7, 'base units')
-    chk.need('R10.1', len(derived), 8, 'derived units')
-    chk.need('R10.1', len(other), 20, 'customary units')
-    chk.need('R10.1', len(prefixes), 20, 'prefixes')
+    chk.need(R1, len(base), 7, 'base units')
+    chk.need(R1, len(derived), 8, 'derived units')
+    chk.need(R1, len(other), 20, 'customary units')
+    chk.need(R1, len(prefixes), 20, 'prefixes')
     bnode = repo.mod(BUILTIN).tree
     # ---- prefixes ---------------------------------------------------------
     for name, exp in si_reference.PREFIXES.items():
         got = prefixes.get(name)
-        chk.ob('R10.1', got is not None and close(
+        chk.ob(R1, got is not None and close(
             Fraction(repr(float(got))), Fraction(10) ** exp, 1e-12), DBF,
             None, key='prefix:' + name, qualname='UnitsDB.prefixes',
             what='prefix %s = 1e%d' % (name, exp), found=repr(got))
     extra = sorted(set(prefixes) - set(si_reference.PREFIXES))
-    chk.ob('R10.1', not extra, DBF, None, key='prefix:extra',
+    chk.ob(R1, not extra, DBF, None, key='prefix:extra',
            qualname='UnitsDB.prefixes', what='no non-SI prefix',
            found=str(extra))
     # ---- definitions in order -----------------------------------------------
@@ -282,7 +284,7 @@ def run(chk, repo, tier):
     def check_unit(name, q, where):
         ref = si_reference.UNITS.get(name)
         if ref is None:
-            chk.ob('R10.1', False, BUILTIN, None, key='unit:' + name,
+            chk.ob(R1, False, BUILTIN, None, key='unit:' + name,
                    qualname=where, what='unit %r is not in the reference '
                                         'table (extend si_reference.py '
                                         'after confirming its definition)'
@@ -291,7 +293,7 @@ def run(chk, repo, tier):
         mag, dim, tol = ref
         ok = q is not None and close(q.mag, mag, tol) and tuple(
             q.dim) == tuple(Fraction(d) for d in dim)
-        chk.ob('R10.1', ok, BUILTIN, None, key='unit:' + name, qualname=where,
+        chk.ob(R1, ok, BUILTIN, None, key='unit:' + name, qualname=where,
                what='%s evaluates to its SI definition' % name,
                found=repr(q),
                required='%s with dimension %s' % (float(mag), dim))
@@ -300,7 +302,7 @@ def run(chk, repo, tier):
         if len(entry) != 3:
             raise AnalysisError('base_SI_units entry shape changed')
         name, mult, prim = entry
-        chk.ob('R10.2', name not in seen, BUILTIN, None,
+        chk.ob(R2, name not in seen, BUILTIN, None,
                key='dup:' + name, qualname='base_SI_units',
                what='%s defined once' % name)
         seen.append(name)
@@ -313,7 +315,7 @@ def run(chk, repo, tier):
                          (other, 'other_units')):
         for entry in table:
             name, text = entry
-            chk.ob('R10.2', name not in seen, BUILTIN, None,
+            chk.ob(R2, name not in seen, BUILTIN, None,
                    key='dup:' + name, qualname=tname,
                    what='%s defined once' % name)
             seen.append(name)
@@ -321,7 +323,7 @@ def run(chk, repo, tier):
             try:
                 q = db.eval(text)
             except dims.UnitSyntaxError as exc:
-                chk.ob('R10.2', False, BUILTIN, None,
+                chk.ob(R2, False, BUILTIN, None,
                        key='define-before-use:' + name, qualname=tname,
                        what='definition of %s uses only names defined '
                             'earlier' % name, found='%r: %s' % (text, exc))
@@ -329,7 +331,7 @@ def run(chk, repo, tier):
                 db.units[name] = q
             check_unit(name, q, tname)
     missing = sorted(set(si_reference.UNITS) - set(seen))
-    chk.ob('R10.1', not missing, BUILTIN, None, key='documented-names',
+    chk.ob(R1, not missing, BUILTIN, None, key='documented-names',
            qualname='<module>', what='every documented unit name is defined',
            found=str(missing))
     # the registration loops feed the tables to the db unchanged
@@ -343,15 +345,21 @@ def run(chk, repo, tier):
         for lp, (body, tab) in zip(loops, want):
             ok = ok and dotted(lp.iter) == tab and len(lp.body) == 1 and \
                 ast.dump(ast.parse(body).body[0]) == ast.dump(lp.body[0])
-    chk.ob('R10.1', ok, BUILTIN, loops[0] if loops else bnode.body[0],
+    chk.ob(R1, ok, BUILTIN, loops[0] if loops else bnode.body[0],
            key='registration-loops', qualname='<module>',
            what='each table is registered entry by entry, unchanged, in '
                 'order')
     add = repo.func(DBF, 'UnitsDB.add')
-    refcmp.check(chk, 'R10.1', DBF, add,
+    refcmp.check(chk, R1, DBF, add,
                  "def f(self, name, val):\n    self.db[name] = val\n",
                  what='UnitsDB.add stores the value under the name',
                  key='UnitsDB.add')
+    return db
+
+
+def run(chk, repo, tier):
+    db = unit_tables(chk, repo)
+    bnode = repo.mod(BUILTIN).tree
     # ---- R10.3 lookup -------------------------------------------------------
     lk = repo.func(DBF, 'UnitsDB.lookup')
     refcmp.check(chk, 'R10.3', DBF, lk, LOOKUP, key='UnitsDB.lookup',
